@@ -346,6 +346,8 @@ fn main() {
         if toks.first() == Some(&"case") {
             flush_case(&cur, &mut lines, &mut w);
             let name = toks.get(1).unwrap_or(&"?").to_string();
+            // a property of the case's name, so that a replayed case takes the same path
+            dynvec::NTH_MODE.with(|m| m.set(name.bytes().map(|b| b as u32).sum::<u32>() % 2 == 1));
             cur = Some((name, kv(&toks, "size", 8), kv(&toks, "align", 8), kv(&toks, "drop", 1) != 0));
         } else {
             lines.push(line);
